@@ -6,6 +6,12 @@ import (
 
 func init() {
 	extraIntrinsics = append(extraIntrinsics, func(m map[string]intrinsic) {
+		m["github.com/cosmos/gogoproto/proto.EnumName"] = func(ex *Exec, fr *frame, cc *ssa.CallCommon, a []Value) Value {
+			return ex.freshAtom("enumname")
+		}
+		m["github.com/cosmos/gogoproto/proto.CompactTextString"] = func(ex *Exec, fr *frame, cc *ssa.CallCommon, a []Value) Value {
+			return ex.freshAtom("prototext")
+		}
 		m["cosmossdk.io/log.NewNopLogger"] = func(ex *Exec, fr *frame, cc *ssa.CallCommon, a []Value) Value {
 			return VIface{Typ: loggerType, V: VOpaque{Kind: "logger"}}
 		}
